@@ -14,7 +14,7 @@ use std::collections::HashMap;
 
 // ---------- schema ----------
 #[derive(Clone, Copy, PartialEq)]
-enum K { Int, Float, Str, Bool, Arr, Absent }
+pub enum K { Int, Float, Str, Bool, Arr, Absent }
 const FIELDS: &[(&[&str], K)] = &[
     (&["n1"], K::Int), (&["n2"], K::Int), (&["User", "age"], K::Int), (&["Order", "qty"], K::Int), (&["Order", "cust", "level"], K::Int),
     (&["f1"], K::Float), (&["Order", "price"], K::Float), (&["User", "score"], K::Float),
@@ -30,10 +30,10 @@ const FLOATS: &[&str] = &["0.0", "0.5", "1.5", "2.0", "10.25", "0.1", "3.0", "10
 thread_local! { static PRESENT: std::cell::RefCell<Vec<(&'static [&'static str], K)>> = std::cell::RefCell::new(vec![]); }
 fn present_of(k: K) -> Vec<&'static [&'static str]> { PRESENT.with(|p| p.borrow().iter().filter(|f| f.1 == k).map(|f| f.0).collect()) }
 
-fn path_sx(p: &[&str]) -> Sx { Sx::l(p.iter().map(|s| Sx::s(s)).collect()) }
+pub fn path_sx(p: &[&str]) -> Sx { Sx::l(p.iter().map(|s| Sx::s(s)).collect()) }
 fn fields_of(k: K) -> Vec<&'static [&'static str]> { FIELDS.iter().filter(|f| f.1 == k).map(|f| f.0).collect() }
-fn any_field(rng: &mut Rng) -> &'static [&'static str] { FIELDS[rng.below(FIELDS.len() as u64) as usize].0 }
-fn field_of(rng: &mut Rng, k: K) -> &'static [&'static str] {
+pub fn any_field(rng: &mut Rng) -> &'static [&'static str] { FIELDS[rng.below(FIELDS.len() as u64) as usize].0 }
+pub fn field_of(rng: &mut Rng, k: K) -> &'static [&'static str] {
     if rng.chance(1, 90) { return any_field(rng); }
     if rng.chance(1, 60) { return *rng.pick(&fields_of(K::Absent)); }
     let pr = present_of(k);
@@ -44,19 +44,19 @@ fn field_of(rng: &mut Rng, k: K) -> &'static [&'static str] {
 fn num_field(rng: &mut Rng) -> &'static [&'static str] { let k = if rng.chance(2, 3) { K::Int } else { K::Float }; field_of(rng, k) }
 
 // ---------- generators (s-expression syntax trees; see Model/ForwardSpec.v) ----------
-fn lit_int(z: i64) -> Sx { Sx::l(vec![Sx::n(0), Sx::i(z)]) }
-fn lit_num(t: &str) -> Sx { Sx::l(vec![Sx::n(1), Sx::s(t)]) }
-fn lit_str(t: &str) -> Sx { Sx::l(vec![Sx::n(2), Sx::s(t)]) }
-fn lit_bool(b: bool) -> Sx { Sx::l(vec![Sx::n(3), Sx::b(b)]) }
-fn lit_null() -> Sx { Sx::l(vec![Sx::n(4)]) }
-fn lit_arr(v: Vec<Sx>) -> Sx { Sx::l(vec![Sx::n(5), Sx::l(v)]) }
-fn a_lit(l: Sx) -> Sx { Sx::l(vec![Sx::n(0), l]) }
-fn a_field(p: &[&str]) -> Sx { Sx::l(vec![Sx::n(1), path_sx(p)]) }
-fn a_bin(op: char, a: Sx, b: Sx) -> Sx { Sx::l(vec![Sx::n(2), Sx::n(op as u64), a, b]) }
+pub fn lit_int(z: i64) -> Sx { Sx::l(vec![Sx::n(0), Sx::i(z)]) }
+pub fn lit_num(t: &str) -> Sx { Sx::l(vec![Sx::n(1), Sx::s(t)]) }
+pub fn lit_str(t: &str) -> Sx { Sx::l(vec![Sx::n(2), Sx::s(t)]) }
+pub fn lit_bool(b: bool) -> Sx { Sx::l(vec![Sx::n(3), Sx::b(b)]) }
+pub fn lit_null() -> Sx { Sx::l(vec![Sx::n(4)]) }
+pub fn lit_arr(v: Vec<Sx>) -> Sx { Sx::l(vec![Sx::n(5), Sx::l(v)]) }
+pub fn a_lit(l: Sx) -> Sx { Sx::l(vec![Sx::n(0), l]) }
+pub fn a_field(p: &[&str]) -> Sx { Sx::l(vec![Sx::n(1), path_sx(p)]) }
+pub fn a_bin(op: char, a: Sx, b: Sx) -> Sx { Sx::l(vec![Sx::n(2), Sx::n(op as u64), a, b]) }
 fn a_par(a: Sx) -> Sx { Sx::l(vec![Sx::n(3), a]) }
 
-fn small_int(rng: &mut Rng) -> i64 { *rng.pick(&[0i64, 1, 2, 3, 4, 5, 7, 10, 12, 100]) }
-fn str_lit(rng: &mut Rng) -> Sx { if rng.chance(1, 12) { lit_str(*rng.pick(ODD_STRS)) } else { lit_str(*rng.pick(STRS)) } }
+pub fn small_int(rng: &mut Rng) -> i64 { *rng.pick(&[0i64, 1, 2, 3, 4, 5, 7, 10, 12, 100]) }
+pub fn str_lit(rng: &mut Rng) -> Sx { if rng.chance(1, 12) { lit_str(*rng.pick(ODD_STRS)) } else { lit_str(*rng.pick(STRS)) } }
 
 /// numeric atom; `lhs`: only what the condition regex admits on a left-hand side; `nk`: Int = integer
 /// operands only, Float = float operands only, anything else = mixed
@@ -88,30 +88,30 @@ fn num_prod(rng: &mut Rng, lhs: bool, depth: u32, first_field: bool, nk: K) -> S
     }
     e
 }
-fn num_sum(rng: &mut Rng, lhs: bool, depth: u32, maxn: u64, nk: K) -> Sx {
+pub fn num_sum(rng: &mut Rng, lhs: bool, depth: u32, maxn: u64, nk: K) -> Sx {
     let mut e = num_prod(rng, lhs, depth, lhs, nk);
     let n = rng.below(maxn + 1);
     for _ in 0..n { e = a_bin(*rng.pick(&['+', '-']), e, num_prod(rng, lhs, depth, false, nk)); }
     e
 }
-fn num_kind(rng: &mut Rng) -> K { *rng.pick(&[K::Int, K::Int, K::Int, K::Float, K::Float, K::Absent]) }
-fn str_sum(rng: &mut Rng) -> Sx {
+pub fn num_kind(rng: &mut Rng) -> K { *rng.pick(&[K::Int, K::Int, K::Int, K::Float, K::Float, K::Absent]) }
+pub fn str_sum(rng: &mut Rng) -> Sx {
     let mut e = if rng.chance(1, 2) { a_field(field_of(rng, K::Str)) } else { a_lit(str_lit(rng)) };
     for _ in 0..rng.below(3) { e = a_bin('+', e, if rng.chance(1, 2) { a_field(field_of(rng, K::Str)) } else { a_lit(str_lit(rng)) }); }
     e
 }
-fn scalar_lit(rng: &mut Rng) -> Sx {
+pub fn scalar_lit(rng: &mut Rng) -> Sx {
     match rng.below(4) { 0 => lit_int(small_int(rng)), 1 => lit_num(*rng.pick(FLOATS)), 2 => str_lit(rng), _ => lit_bool(rng.chance(1, 2)) }
 }
-fn arr_lit(rng: &mut Rng, k: K) -> Sx {
+pub fn arr_lit(rng: &mut Rng, k: K) -> Sx {
     let n = rng.below(4);
     lit_arr((0..n).map(|_| match k { K::Int => lit_int(small_int(rng)), K::Str => str_lit(rng), _ => scalar_lit(rng) }).collect())
 }
 
-fn cmp(l: Sx, o: u64, r: Sx) -> Sx { Sx::l(vec![Sx::n(0), l, Sx::n(o), r]) }
+pub fn cmp(l: Sx, o: u64, r: Sx) -> Sx { Sx::l(vec![Sx::n(0), l, Sx::n(o), r]) }
 const OPS6: &[u64] = &[0, 1, 2, 3, 4, 5];
 
-fn gen_leaf(rng: &mut Rng) -> Sx {
+pub fn gen_leaf(rng: &mut Rng) -> Sx {
     match if rng.chance(1, 20) { 12 + rng.below(2) * 3 } else { let k = rng.below(14); if k >= 12 { k + 1 } else { k } } {
         0..=4 => { // numeric comparison: == and != within one numeric kind, orderings also across
             let op = *rng.pick(OPS6);
@@ -139,7 +139,7 @@ fn gen_leaf(rng: &mut Rng) -> Sx {
         }
     }
 }
-fn gen_cond(rng: &mut Rng, depth: u32) -> Sx {
+pub fn gen_cond(rng: &mut Rng, depth: u32) -> Sx {
     if depth == 0 || rng.chance(2, 5) { return gen_leaf(rng); }
     match rng.below(5) {
         0 | 1 => Sx::l(vec![Sx::n(1), gen_cond(rng, depth - 1), gen_cond(rng, depth - 1)]),
@@ -227,7 +227,7 @@ pub fn gen(tier: Tier, rng: &mut Rng) -> Vec<Sx> {
 }
 
 // ---------- printer (must agree with ForwardSpec.pr / pr_cond) ----------
-fn pr_lit(l: &Sx) -> String {
+pub fn pr_lit(l: &Sx) -> String {
     match l.at(0).as_u() {
         0 => format!("{}", l.at(1).as_i()),
         1 => l.at(1).as_s(),
@@ -237,8 +237,8 @@ fn pr_lit(l: &Sx) -> String {
         _ => format!("[{}]", l.at(1).as_l().iter().map(pr_lit).collect::<Vec<_>>().join(", ")),
     }
 }
-fn pr_path(p: &Sx) -> String { p.as_l().iter().map(|s| s.as_s()).collect::<Vec<_>>().join(".") }
-fn pr_aexp(e: &Sx) -> String {
+pub fn pr_path(p: &Sx) -> String { p.as_l().iter().map(|s| s.as_s()).collect::<Vec<_>>().join(".") }
+pub fn pr_aexp(e: &Sx) -> String {
     match e.at(0).as_u() {
         0 => pr_lit(e.at(1)),
         1 => pr_path(e.at(1)),
@@ -246,10 +246,10 @@ fn pr_aexp(e: &Sx) -> String {
         _ => format!("({})", pr_aexp(e.at(1))),
     }
 }
-fn op_str(o: u64) -> &'static str {
+pub fn op_str(o: u64) -> &'static str {
     match o { 0 => "==", 1 => "!=", 2 => ">", 3 => ">=", 4 => "<", 5 => "<=", 6 => "contains", 8 => "startsWith", 9 => "endsWith", 11 => "in", _ => "??" }
 }
-fn pr_cond(c: &Sx) -> String {
+pub fn pr_cond(c: &Sx) -> String {
     let wrap = |x: &Sx| if matches!(x.at(0).as_u(), 1 | 2) { format!("({})", pr_cond(x)) } else { pr_cond(x) };
     match c.at(0).as_u() {
         0 => format!("{} {} {}", pr_aexp(c.at(1)), op_str(c.at(2).as_u()), pr_aexp(c.at(3))),
